@@ -110,6 +110,8 @@ type mach struct {
 	maxSteps int
 	finfo    map[*ssa.Function]map[ssa.Value]int32
 	cov      map[*ssa.Function]bool
+	ownPkgs  map[*ssa.Package]bool // extra packages evaluated like the module's (self-test)
+	prog     *ssa.Program // program of the code under evaluation when it is not the repository's (self-test)
 	depth    int
 	nsym     int
 	// intercept is asked before any statically resolved call (module or not): handled=true → its result is used
@@ -820,7 +822,7 @@ func (m *mach) global(g *ssa.Global) *mv {
 	}
 	elem := g.Type().(*types.Pointer).Elem()
 	var v mv
-	if g.Pkg != nil && m.c.relPkg(g.Pkg.Pkg) != "" || (g.Pkg != nil && m.c.isLibPath(g.Pkg.Pkg.Path())) {
+	if g.Pkg != nil && m.c.relPkg(g.Pkg.Pkg) != "" || (g.Pkg != nil && m.c.isLibPath(g.Pkg.Pkg.Path())) || (g.Pkg != nil && m.ownPkgs[g.Pkg]) {
 		v = m.zero(elem)
 		m.globals[g] = &v
 		m.initPkg(g.Pkg)
@@ -1159,7 +1161,11 @@ func (m *mach) prepareCall(fr *mframe, cc *ssa.CallCommon) (fn mv, args []mv, en
 		}
 		switch r := recv.(type) {
 		case mIface:
-			f := m.c.Prog.LookupMethod(r.t, cc.Method.Pkg(), cc.Method.Name())
+			prog := m.c.Prog
+			if m.prog != nil {
+				prog = m.prog
+			}
+			f := prog.LookupMethod(r.t, cc.Method.Pkg(), cc.Method.Name())
 			if f == nil {
 				m.abort("method %s not found on %s", cc.Method.Name(), r.t)
 			}
